@@ -21,7 +21,7 @@ EXPLANATION = (
     "U3: in compFileFront every CFG path from the passing edge of the compIsMoreAfterSyntax() test to the function's exit calls "
     "compPhaseScoBind (the binder's entry applies the pending roll-back of a rejected step; the flag scoUndoState has the single "
     "setter scoSetUndoState). U4: scanIsContinued's character switches inside and outside a string literal both have a case for the "
-    "scanner's ESC_CHAR that sets sawEscape, and a case for the double quote. Not decided: equality of interactive and batch output; symbol-table state after the undo.")
+    "scanner's ESC_CHAR that sets sawEscape, and a case for the double quote. U6: adding a meaning to a symbol-table entry (stab.c) is preceded on every path by stabEntryClearCache; the undo of a rejected step (scoUndoStabEntry) filters every place of struct stabEntry that holds meanings (all slots symev[0..argc) and pending) with one predicate and resets possv[0..argc). Not decided: equality of interactive and batch output; the rest of the symbol-table state after the undo.")
 
 ERR = [("call", "comsgErrorCount", False)]
 
@@ -281,6 +281,175 @@ def u5(rep):
                       "the restore no longer filters the uses with declInfoUseIsNew")
 
 
+def _stent_field(n):
+    """X->field or X->field[i]  ->  (base text, field, index node or None)"""
+    s_ = strip(n)
+    idx = None
+    if s_ is not None and s_["k"] == "ArraySubscriptExpr":
+        idx = s_["c"][1]
+        s_ = strip(s_["c"][0])
+    if s_ is not None and s_["k"] == "MemberExpr":
+        return common.render(strip(s_["c"][0])), s_["n"], idx
+    return None, None, None
+
+
+def _loop_range(node, par):
+    """the enclosing `for (i = lo; i < X->argc; ...)`: (loop variable, lo) or None"""
+    cur = node
+    while cur["id"] in par:
+        p_ = par[cur["id"]]
+        if p_["k"] == "ForStmt":
+            init, cond = strip(p_["c"][0]), strip(p_["c"][1] if len(p_["c"]) > 1 else None)
+            if init is not None and init["k"] == "BinaryOperator" and init["op"] == "=" and cond is not None and \
+                    cond["k"] == "BinaryOperator" and cond["op"] in ("<", "!="):
+                v, lo = strip(init["c"][0]), const_value(init["c"][1])
+                b, fld, _ = _stent_field(cond["c"][1])
+                if v is not None and v["k"] == "DeclRefExpr" and lo is not None and fld == "argc" and \
+                        common.render(strip(cond["c"][0])) == v["n"]:
+                    return v["n"], lo
+        cur = p_
+    return None
+
+
+def u6(rep):
+    """A symbol-table entry keeps its meanings in several places (struct stabEntry: the slots symev[0..argc) and the pending
+    list) and caches, per slot, the possible types computed from them (possv[0..argc)).  The interactive loop relies on two
+    things. (a) Adding a meaning drops every cached answer: in stab.c each function that adds to a slot calls
+    stabEntryClearCache(entry) on every path before the addition.  (b) Taking the meanings of a rejected step back
+    (scobind.c:scoUndoStabEntry) removes them from EVERY place that holds them, with the same predicate, and resets the cached
+    types of every slot; otherwise the next use of the name reads freed meanings or a stale answer."""
+    # (a)
+    fs = common.extract("stab.c", all_trees=True, all_cfg=True)
+    rec = fs.records.get("stabEntry")
+    if rec is None:
+        raise AnalysisBroken("struct stabEntry not found")
+    lists = [n for n, t in rec["f"] if "SymeList" in t]
+    caches = [n for n, t in rec["f"] if "TPoss" in t]
+    if sorted(lists) != ["pending", "symev"] or caches != ["possv"]:
+        raise AnalysisBroken("struct stabEntry changed (meaning lists %s, caches %s): U6 must be re-derived" % (lists, caches))
+    builders = ("stabEntryPutSyme", "stabEntryAddCache", "stabEntryClearCache")
+    n_add = 0
+    for name, fn in sorted(fs.funcs.items()):
+        if "body" not in fn or not fn.get("file", "").endswith("stab.c") or name in builders:
+            continue
+        muts = []
+        for x in walk(fn["body"]):
+            if x["k"] == "CallExpr" and x.get("callee") == "stabEntryPutSyme":
+                muts.append(x)
+            elif x["k"] == "BinaryOperator" and x["op"] == "=":
+                b, fld, idx = _stent_field(x["c"][0])
+                if fld == "symev" and idx is not None:
+                    muts.append(x)
+        # a NEW meaning: the stored value is (built from) a Syme parameter of the function.  Moving a meaning the entry
+        # already holds between its own places (pending -> slot, copy of an entry) is not an addition.
+        sparams = set(p_["n"] for p_ in fn.get("params", []) if p_.get("t", "").replace(" ", "") in ("Syme", "structsyme*"))
+        muts = [m for m in muts if any(y["k"] == "DeclRefExpr" and y["n"] in sparams
+                                      for y in walk(m["c"][-1] if m["k"] == "CallExpr" else m["c"][1]))]
+        if not muts:
+            continue
+        cfg = common.CFG(fn)
+        for m in muts:
+            n_add += 1
+            key = "add-invalidates-cache:%s@%d" % (name, sum(1 for y in muts if y["l"] <= m["l"]))
+            where = "stab.c:%d (%s)" % (m["l"], name)
+            ev = cfg.events(lambda e, m=m: e.get("id") == m["id"])
+            if not ev:
+                raise AnalysisBroken("%s: the slot update at line %d is not in the CFG" % (name, m["l"]))
+            p = cfg.path_avoiding(cfg.entry, lambda e, m=m: e.get("id") == m["id"], is_call("stabEntryClearCache"), src_idx=-1)
+            if p is not None:
+                rep.violation("U6", key, where,
+                              "%s adds a meaning to a slot of the entry on a path that has not called stabEntryClearCache: the "
+                              "possible types cached for the name are kept, so in the interactive loop (where binding and type "
+                              "inference alternate) a later step is checked against the answer computed before the addition"
+                              % name, detail={"cfg_path": p[:12]})
+            else:
+                rep.ok("U6", key)
+    rep.floor("slot additions in stab.c", n_add, 4)
+    # (b)
+    f = common.extract("scobind.c", trees=["scoUndoStabEntry"])
+    fn = f.func("scoUndoStabEntry")
+    par = common.parents(fn["body"])
+    where = "scobind.c:%d (scoUndoStabEntry)" % fn["l"]
+    filt = {}          # place -> set of (predicate, lo)
+    for x in walk(fn["body"]):
+        if x["k"] != "BinaryOperator" or x["op"] != "=":
+            continue
+        cs = [c for c in calls(x["c"][1]) if (c.get("callee") or "").startswith("listFreeIfSat") or "FreeIfSat" in common.render(c)[:60]]
+        if not cs:
+            continue
+        c = cs[0]
+        pred = common.render(strip(c["c"][-1]))
+        src = strip(c["c"][1])
+        b, fld, idx = _stent_field(x["c"][0])
+        if fld is None and src is not None and src["k"] == "DeclRefExpr":
+            continue                 # nsymes = filter(osymes): resolved below through the local
+        if fld == "pending":
+            filt.setdefault("pending", set()).add((pred, None))
+        elif fld == "symev":
+            rng = _loop_range(x, par)
+            if rng and common.render(strip(idx)) == rng[0]:
+                filt.setdefault("symev", set()).add((pred, rng[1]))
+            elif const_value(idx) is not None:
+                filt.setdefault("symev", set()).add((pred, ("const", const_value(idx))))
+    # symev[0] through locals: osymes = X->symev[0]; nsymes = filter(osymes, P); X->symev[0] = nsymes
+    src_local, dst_local, pred0 = None, None, None
+    for x in walk(fn["body"]):
+        if x["k"] == "BinaryOperator" and x["op"] == "=":
+            l = strip(x["c"][0])
+            b, fld, idx = _stent_field(x["c"][1])
+            if l is not None and l["k"] == "DeclRefExpr" and fld == "symev" and const_value(idx) == 0:
+                src_local = l["n"]
+    for x in walk(fn["body"]):
+        if x["k"] == "BinaryOperator" and x["op"] == "=":
+            l = strip(x["c"][0])
+            cs = [c for c in calls(x["c"][1]) if "FreeIfSat" in common.render(c)[:60]]
+            if l is not None and l["k"] == "DeclRefExpr" and cs and src_local and common.render(strip(cs[0]["c"][1])) == src_local:
+                dst_local, pred0 = l["n"], common.render(strip(cs[0]["c"][-1]))
+    for x in walk(fn["body"]):
+        if x["k"] == "BinaryOperator" and x["op"] == "=":
+            b, fld, idx = _stent_field(x["c"][0])
+            r = strip(x["c"][1])
+            if fld == "symev" and const_value(idx) == 0 and r is not None and r["k"] == "DeclRefExpr" and r["n"] == dst_local:
+                filt.setdefault("symev", set()).add((pred0, ("const", 0)))
+    if pred0 is None and not any(lo == ("const", 0) or lo == 0 for _, lo in filt.get("symev", ())):
+        raise AnalysisBroken("scoUndoStabEntry: the filtering of slot 0 was not recognised")
+    preds = set(p for v in filt.values() for p, _ in v)
+    pred = pred0 or sorted(preds)[0]
+    sym = filt.get("symev", set())
+    covered_from = min([lo for p, lo in sym if isinstance(lo, int) and p == pred] or [None], key=lambda v: (v is None, v))
+    has0 = any(lo == ("const", 0) and p == pred for p, lo in sym) or covered_from == 0
+    all_slots = has0 and covered_from is not None and covered_from <= 1
+    if all_slots:
+        rep.ok("U6", "undo:every-slot-filtered", sample={"predicate": pred, "loop from": covered_from})
+    else:
+        rep.violation("U6", "undo:every-slot-filtered", where,
+                      "scoUndoStabEntry removes the meanings of the rejected step (%s) from slot 0 only: the conditional slots "
+                      "symev[1..argc) keep pointing at them, and they are freed by the undo; the next use of the name in the "
+                      "interactive loop reads freed meanings (a rejected overload of f followed by f(3) ends in a segmentation "
+                      "violation) while the batch compiler, which never undoes, accepts the same forms" % pred)
+    if any(p == pred for p, _ in filt.get("pending", ())):
+        rep.ok("U6", "undo:pending-filtered")
+    else:
+        rep.violation("U6", "undo:pending-filtered", where,
+                      "scoUndoStabEntry does not remove the rejected step's meanings from the entry's pending list")
+    resets = []
+    for x in walk(fn["body"]):
+        if x["k"] == "BinaryOperator" and x["op"] == "=" and const_value(x["c"][1]) == 0:
+            b, fld, idx = _stent_field(x["c"][0])
+            if fld == "possv":
+                rng = _loop_range(x, par)
+                if rng and common.render(strip(idx)) == rng[0]:
+                    resets.append(rng[1])
+                else:
+                    resets.append(("const", const_value(idx)))
+    if any(r == 0 for r in resets):
+        rep.ok("U6", "undo:every-cached-answer-dropped")
+    else:
+        rep.violation("U6", "undo:every-cached-answer-dropped", where,
+                      "scoUndoStabEntry resets the cached possible types of %s only; the answers cached for the other slots were "
+                      "computed with the meanings being taken back" % (sorted(str(r) for r in resets) or "no slot"))
+
+
 def run(tier, only=None):
     rep = common.Report("C13", tier, EXPLANATION)
     f = common.extract("axlcomp.c", all_cfg=True)
@@ -289,6 +458,7 @@ def run(tier, only=None):
     u3(rep, f)
     u4(rep)
     u5(rep)
+    u6(rep)
     rep.analysed_count("functions", 3)
     rep.assumptions.append("the CFG search is path-insensitive except for the fintMode == FINT_LOOP assumption in U1")
     return rep
